@@ -71,6 +71,14 @@ def _check_sig(sig: bytes):
         raise ValueError("Invalid signature")
 
 
+def _mutable(buf):
+    """Argument of the in-place variants: bytes are written to directly (as before),
+    a bytearray (the only type the pure-python fallback can write to) via the buffer protocol"""
+    if isinstance(buf, bytearray):
+        return (c_char * len(buf)).from_buffer(buf)
+    return buf
+
+
 def _find_library():
     library_path = None
     extension = ""
@@ -672,7 +680,7 @@ def ec_privkey_tweak_add(secret, tweak, context=_secp.ctx):
     if len(secret) != 32 or len(tweak) != 32:
         raise ValueError("Secret and tweak should both be 32 bytes long")
     t = _copy(tweak)
-    if _secp.secp256k1_ec_privkey_tweak_add(context, secret, tweak) == 0:
+    if _secp.secp256k1_ec_privkey_tweak_add(context, _mutable(secret), tweak) == 0:
         raise ValueError("Failed to tweak the secret")
     return None
 
@@ -685,7 +693,7 @@ def ec_pubkey_tweak_add(pub, tweak, context=_secp.ctx):
         raise ValueError("Tweak should be 32 bytes long")
     _check_pubkey(pub)
     t = _copy(tweak)
-    if _secp.secp256k1_ec_pubkey_tweak_add(context, pub, tweak) == 0:
+    if _secp.secp256k1_ec_pubkey_tweak_add(context, _mutable(pub), tweak) == 0:
         raise ValueError("Failed to tweak the public key")
     return None
 
@@ -719,7 +727,7 @@ def ec_pubkey_add(pub, tweak, context=_secp.ctx):
 def ec_privkey_tweak_mul(secret, tweak, context=_secp.ctx):
     if len(secret) != 32 or len(tweak) != 32:
         raise ValueError("Secret and tweak should both be 32 bytes long")
-    if _secp.secp256k1_ec_privkey_tweak_mul(context, secret, tweak) == 0:
+    if _secp.secp256k1_ec_privkey_tweak_mul(context, _mutable(secret), tweak) == 0:
         raise ValueError("Failed to tweak the secret")
 
 
@@ -730,7 +738,7 @@ def ec_pubkey_tweak_mul(pub, tweak, context=_secp.ctx):
     if len(tweak) != 32:
         raise ValueError("Tweak should be 32 bytes long")
     _check_pubkey(pub)
-    if _secp.secp256k1_ec_pubkey_tweak_mul(context, pub, tweak) == 0:
+    if _secp.secp256k1_ec_pubkey_tweak_mul(context, _mutable(pub), tweak) == 0:
         raise ValueError("Failed to tweak the public key")
 
 
